@@ -65,6 +65,12 @@ def _swc_cell():
     finally:
         os.unlink(path)
     c.insert(HH())
+    # one view object added to two groups: both groups then hold the very same index array object (aliasing survives a copy as
+    # shared-but-writeable arrays; seeded change S99); the grouped branches come after the ones the set_ncomp operations modify
+    nb = len(c.comb_parents)
+    v = c.branch([nb - 2, nb - 1])
+    v.add_to_group("alias_a")
+    v.add_to_group("alias_b")
     return c
 
 
